@@ -418,7 +418,17 @@ Definition check_case (c : case) : bool :=
       view_eqb t (res_bind (csv_roundtrip fid fid PrimFloat.add fx tps Ws (f_from_lists t rows))
                            (csv_roundtrip fid fid PrimFloat.add fx tps Ws)) loaded pl best
   | CScrape t headers cells loaded pl best =>
-      view_eqb t (res_bind (csv_load fid fx (headers, cells)) (db_roundtrip fx)) loaded pl best
+      (* the scraper first builds Fit(instance=item.instance): the best-fit lookup on the loaded samples must succeed *)
+      match csv_load fid fx (headers, cells) with
+      | Ok sl =>
+          match f_best t sl with
+          | Ok _ => view_eqb t (db_roundtrip fx sl) loaded pl best
+          | KeyErr => res_eqb (list_eqb sample_eqb) KeyErr loaded
+          | OtherErr => res_eqb (list_eqb sample_eqb) OtherErr loaded
+          end
+      | KeyErr => res_eqb (list_eqb sample_eqb) KeyErr loaded
+      | OtherErr => res_eqb (list_eqb sample_eqb) OtherErr loaded
+      end
   | CSummary t rows median lmax vmax lmed vmed =>
       let Ws := sorted_walk t in
       let tps := tuple_paths [] t in
